@@ -299,7 +299,7 @@ def minimise(pool, check, seed, plan, tapes, rule, budget_s=60.0, max_runs=2000,
     for tag in sorted(tapes.keys()):
         if time.time() > t_end or runs[0] >= max_runs:
             break
-        if not tapes[tag]:
+        if not tapes.get(tag):
             continue
         t2 = dict(tapes)
         t2[tag] = []
